@@ -45,6 +45,7 @@ func emitHull(e *Emitter, r *Rng, stride int, flat []float64) {
 	mod := "unmodified"
 	// the hull geometry is kept and rendered again after later calls: it must stay the hull of its
 	// own input (a recycled scratch buffer would let a later call overwrite it)
+	e.pending("C13.hull", fmt.Sprintf("(%d %s)", stride, sxCoord(flat)))
 	e.emitR("C13.hull", fmt.Sprintf("(%d %s)", stride, sxCoord(flat)), func() string {
 		if !done {
 			in := append([]float64{}, flat...)
